@@ -180,6 +180,28 @@ func printFileBeforeAnother(f *dst.File, another bool) (string, error) {
 	return buf.String(), err
 }
 
+// printFileFRBeforeAnother is printFileBeforeAnother with one FileRestorer doing both restores.
+func printFileFRBeforeAnother(f *dst.File, another bool) (string, error) {
+	fr := decorator.NewRestorer().FileRestorer()
+	af, err := fr.RestoreFile(f)
+	if err != nil {
+		return "", err
+	}
+	if another {
+		other, err := decorator.Parse(otherFileSrc)
+		if err != nil {
+			panic(err)
+		}
+		fr.Name = "other.go"
+		if _, err := fr.RestoreFile(other); err != nil {
+			panic(err)
+		}
+	}
+	var buf bytes.Buffer
+	err = format.Node(&buf, fr.Fset, af)
+	return buf.String(), err
+}
+
 // printFileReusedFileRestorer prints f with a FileRestorer that has printed another (commented) file
 // before, or with a fresh one.
 func printFileReusedFileRestorer(f *dst.File, reused bool) (string, error) {
@@ -209,6 +231,13 @@ func printFileBoth(f *dst.File) (out string, err error, differs string) {
 		early, eerr := printFileBeforeAnother(f, true)
 		if (aerr == nil) != (eerr == nil) || early != alone {
 			return out, err, fmt.Sprintf("the print changes when the same Restorer restores another file before the first is printed (errors: %v / %v)\n%s", aerr, eerr, diffDesc(alone, early))
+		}
+	}
+	if err == nil {
+		alone, aerr := printFileFRBeforeAnother(f, false)
+		early, eerr := printFileFRBeforeAnother(f, true)
+		if (aerr == nil) != (eerr == nil) || early != alone {
+			return out, err, fmt.Sprintf("the print changes when the same FileRestorer restores another file before the first is printed (errors: %v / %v)\n%s", aerr, eerr, diffDesc(alone, early))
 		}
 	}
 	if err == nil {
